@@ -150,7 +150,9 @@ func around(hid int, t *Type) []*Type {
 // that wrote a promoted selector there would not produce a wrong answer but code that does not
 // compile (a direct finding that says less than a failing pair of values), so they get a package of
 // their own.
-func (c *Catalogue) EmbeddedShapesR5() (shapes, ambiguous []*Type) {
+// The shapes that mention an imported type are a list of their own as well: the more packages, the less a
+// generator that emits something the compiler refuses for ONE shape hides its wrong answers on the others.
+func (c *Catalogue) EmbeddedShapesR5() (shapes, imported, ambiguous []*Type) {
 	i, s := B("int"), B("string")
 	base := Named(70, "Base", 0, StF(Fld("ID", i), Fld("Name", s)))
 	// the classic: Derived.ID hides Base.ID
@@ -179,7 +181,7 @@ func (c *Catalogue) EmbeddedShapesR5() (shapes, ambiguous []*Type) {
 	// an embedded type with its own Equal method whose first field is hidden: the method answers at the
 	// embedded component, the outer F0 is compared next to it
 	var out []*Type
-	cores := []*Type{derived, doc, mid, pder, xder, embn, plain}
+	cores := []*Type{derived, doc, mid, pder, embn, plain}
 	if c.WithMethods {
 		cores = append(cores, Named(83, "EmbM", 0, StF(Emb(c.ME), Fld("F0", i))), Named(84, "EmbP", 0, StF(Fld("F0", s), Emb(P(c.MP)))))
 	}
@@ -187,15 +189,16 @@ func (c *Catalogue) EmbeddedShapesR5() (shapes, ambiguous []*Type) {
 		out = append(out, around(400+k, t)...)
 	}
 	out = append(out, Ar(2, derived), M(i, P(doc)), Sl(P(derived)))
+	imported = around(414, xder)
 	for k, t := range []*Type{amb, sib, midx} {
 		ambiguous = append(ambiguous, around(415+k, t)...)
 	}
-	return out, ambiguous
+	return out, imported, ambiguous
 }
 
 // TagShapesR5: named structs whose fields carry tags of the usual kinds (a key with the value "-",
 // options, several keys, raw and interpreted literals).  Ids 47..59.
-func (c *Catalogue) TagShapesR5() []*Type {
+func (c *Catalogue) TagShapesR5() (shapes, imported []*Type) {
 	i, s := B("int"), B("string")
 	tagged := func(id int, name string, ext int, u *Type, tags map[int]string) *Type {
 		SetTagsR5(id, tags)
@@ -215,10 +218,13 @@ func (c *Catalogue) TagShapesR5() []*Type {
 	te := tagged(51, "TagE", 0, StF(Emb(base), Fld("When", c.E2), Fld("N", i)), map[int]string{0: "`json:\"-\"`", 1: "`gorm:\"-\"`"})
 	xt := tagged(52, "XT", 1, StP([]bool{false, true}, i, Sl(s)), map[int]string{0: "`json:\"-\"`", 1: "`json:\"-\"`"})
 	var out []*Type
-	for k, t := range []*Type{acct, tc, tall, tg, te, xt} {
+	for k, t := range []*Type{acct, tc, tall, tg} {
 		out = append(out, around(420+k, t)...)
 	}
-	return append(out, Ar(2, tc), Sl(P(acct)))
+	for k, t := range []*Type{te, xt} {
+		imported = append(imported, around(424+k, t)...)
+	}
+	return append(out, Ar(2, tc), Sl(P(acct))), imported
 }
 
 // NamedIfaceMethodTypesR5: see the head of the file.
